@@ -23,22 +23,23 @@ import (
 // both next to each other), u0 u1 (unix, HTTP app), m1 (unix, admin endpoint).
 const (
 	nTCP  = 6
-	nUnix = 4
+	nUnix = 5
 	nAddr = nTCP + nUnix
-	adm0  = 3 // m0
-	rng0  = 4 // p0
-	rng1  = 5 // p1
-	ux0   = 6 // u0
-	adm1  = 8 // m1
-	pkt0  = 9 // v0: network unixpacket at the PATH OF u0 (unix network kinds share the file namespace)
+	adm0  = 3  // m0
+	rng0  = 4  // p0
+	rng1  = 5  // p1
+	ux0   = 6  // u0
+	adm1  = 8  // m1
+	pkt0  = 9  // v0: network unixpacket at the PATH OF u0 (unix network kinds share the file namespace)
+	abs0  = 10 // a0: an abstract unix socket (unix/@verif-c02-<pid>-0): same bookkeeping, no file
 )
 
 const soReusePort = 0xf // SO_REUSEPORT on linux (all architectures caddy builds listen_unix.go for here)
 
-var addrNames = [nAddr]string{"t0", "t1", "t2", "m0", "p0", "p1", "u0", "u1", "m1", "v0"}
+var addrNames = [nAddr]string{"t0", "t1", "t2", "m0", "p0", "p1", "u0", "u1", "m1", "v0", "a0"}
 
 // httpAddrs are the addresses the HTTP app may listen on.
-var httpAddrs = []int{0, 1, 2, 4, 5, 6, 7, 9}
+var httpAddrs = []int{0, 1, 2, 4, 5, 6, 7, 9, 10}
 
 func isAdmin(a int) bool { return a == adm0 || a == adm1 }
 
@@ -151,6 +152,9 @@ func newEnv() (*env, error) {
 		e.upath[i] = filepath.Join(dir, fmt.Sprintf("u%d.sock", i))
 		if nTCP+i == pkt0 {
 			e.upath[i] = e.upath[ux0-nTCP] // same file, other network kind
+		}
+		if nTCP+i == abs0 {
+			e.upath[i] = fmt.Sprintf("@verif-c02-%d-0", os.Getpid()) // abstract: a kernel name, no file
 		}
 	}
 	bl, err := net.Listen("tcp", "127.0.0.1:0")
